@@ -32,8 +32,17 @@ pub(crate) fn time_since_arbitrary_epoch() -> Duration {
 /// Note that the rate limiting applies to each unique code location of the macro call, not to all code sites using it.
 macro_rules! rate_limited {
     ($interval:expr, $call:expr) => {{
+        #[cfg(not(metrique_verif_loom))]
         use std::sync::atomic::{AtomicU64, Ordering};
+        #[cfg(not(metrique_verif_loom))]
         static NEXT_CALL: AtomicU64 = AtomicU64::new(u64::MIN);
+        // verification builds only: the limiter's cell is scheduler-visible and per execution
+        #[cfg(metrique_verif_loom)]
+        use metrique_writer_core::__verif::loom::sync::atomic::{AtomicU64, Ordering};
+        #[cfg(metrique_verif_loom)]
+        metrique_writer_core::__verif::loom::lazy_static! {
+            static ref NEXT_CALL: AtomicU64 = AtomicU64::new(u64::MIN);
+        }
         let interval = $interval;
         assert!(
             interval >= Duration::from_secs(1),
